@@ -48,6 +48,10 @@ partial def getEx? (j : Json) : Option (Ex Float) := do
   | "sqnorm" => some (.sqnorm (← sub "a"))
   | "quad" => some (.quad (← fFloatList? j "d") (← sub "a"))
   | "gauss" => some (.gauss (← fFloatList? j "data") (← fFloatList? j "icov") (← sub "a"))
+  | "bil" => do
+      let T ← (field? j "T").bind (listOf? (listOf? floatList?))
+      some (.bil (← fNat? j "m") (← fNat? j "na") (← fNat? j "nb") T (← sub "a") (← sub "b"))
+  | "varcov" => some (.varcov (← fNat? j "n") (← sub "a") (← sub "b"))
   | "const" => do
       let parts ← (field? j "parts").bind getArr?
       let kv ← parts.mapM (fun p => do
@@ -88,6 +92,9 @@ def check : Ex Float → Dom → Bool
   | .quad c a, d => check a d && domEq a.dom [("", c.length)]
   | .gauss dt ic a, d => check a d && domEq a.dom [("", dt.length)] && ic.length == dt.length
   | .const _ _ _, _ => true
+  | .bil m na nb T a b, d => check a d && check b d && domEq a.dom [("", na)] && domEq b.dom [("", nb)]
+      && T.length == m && T.all (fun r => r.length == na && r.all (·.length == nb))
+  | .varcov n a b, d => check a d && check b d && domEq a.dom [("", n)] && domEq b.dom [("", n)]
 
 def flat (d : Dom) (v : MVal Float) : List Float :=
   d.flatMap (fun kn => (List.range kn.2).map (v kn.1))
